@@ -56,6 +56,22 @@ fn main() {
         for (n, f) in fates(&sim, st.pid) { println!("  {} => {}", n, match f { Fate::Done(v) => v.show(), o => format!("{:?}", o) }); }
         return;
     }
+    if args.len() >= 3 && args[1] == "ioprobe" {
+        let src = if std::path::Path::new(&args[2]).exists() { std::fs::read_to_string(&args[2]).unwrap() } else { args[2].clone() };
+        let b = vh::qv::builtins_io();
+        let bc = match compile_entry(&src, &b) { Ok(bc) => bc, Err(e) => { println!("compile error: {:?}", e); return; } };
+        let (mb, st) = vh::mockio::MockBackend::new(args.get(3).and_then(|s| s.parse().ok()).unwrap_or(0));
+        let mut sim = Sim::new(2, &b, false, Some(Box::new(mb)));
+        let started = start_program(&mut sim, bc).unwrap();
+        let mut rng = vh::rng::Rng::new(1);
+        let st2 = st.clone();
+        let end = sim.run(Strategy::Eager, QuantumPolicy::Fixed(1000), &mut rng, 100000, &move || !st2.lock().unwrap().deferred.is_empty(), &mut |_s| false);
+        println!("end={:?}", end);
+        for (n, f) in fates(&sim, started.pid) { println!("  {} => {}", n, match f { Fate::Done(v) => v.show(), o => format!("{:?}", o) }); }
+        for c in &st.lock().unwrap().calls { println!("  backend: {:?}", c); }
+        println!("  ownership at end: {:?}", sim.env.verif_resource_ownership());
+        return;
+    }
     if args.len() >= 3 && args[1] == "heap" {
         let src = if std::path::Path::new(&args[2]).exists() { std::fs::read_to_string(&args[2]).unwrap() } else { args[2].clone() };
         let b = vh::qv::builtins();
@@ -104,6 +120,7 @@ fn main() {
         "C15" => { vh::c15::check(&rep); rep.finish(vh::c15::RULE, vh::c15::ASSUME, vh::c15::SITUATIONS) }
         "C06" => { vh::c06::check(&rep); rep.finish(vh::c06::RULE, vh::c06::ASSUME, vh::c06::SITUATIONS) }
         "C05" => { vh::c05::check(&rep); rep.finish(vh::c05::RULE, vh::c05::ASSUME, vh::c05::SITUATIONS) }
+        "C14" => { vh::c14::check(&rep); rep.finish(vh::c14::RULE, vh::c14::ASSUME, vh::c14::SITUATIONS) }
         _ => { eprintln!("unknown property {}", id); 2 }
     };
     std::process::exit(code);
